@@ -159,7 +159,8 @@ var validVersions = []struct {
 	{"10.0.0", 12}, // string order would say 10.0.0 < 2.0.0
 }
 
-var invalidVersions = []string{"1.0", "v1.0.0", "01.0.0", "1.0.0-01", ""}
+// "1.0" and "2" are shorthands some comparison libraries accept as 1.0.0 / 2.0.0
+var invalidVersions = []string{"1.0", "2", "v1.0.0", "01.0.0", "1.0.0-01", ""}
 
 func sign(x int) int {
 	switch {
